@@ -188,16 +188,16 @@ def pre (u : List Char) : Option (List Char × List Char) → Option (List Char 
   | none => none
 
 /-- `Scanner.scanString` after the opening quotation mark: the raw contents and the rest.  A backslash
-    directly in front of a quotation mark makes the scanner step over that quotation mark. -/
-def scanStr : List Char → Option (List Char × List Char)
-  | [] => none
-  | c :: rest =>
-    if c = '"' then some ([], rest)
-    else if c = '\\' then
-      match rest with
-      | [] => none
-      | x :: rest' => if x = '"' then pre ['\\', '"'] (scanStr rest') else pre ['\\'] (scanStr rest)
-    else pre [c] (scanStr rest)
+    directly in front of a quotation mark makes the scanner step over that quotation mark (`afterBs`:
+    the previous character was a backslash that did not itself get stepped over). -/
+def scanStrAux : Bool → List Char → Option (List Char × List Char)
+  | _, [] => none
+  | afterBs, c :: rest =>
+    if c = '"' then
+      if afterBs then pre [c] (scanStrAux false rest) else some ([], rest)
+    else pre [c] (scanStrAux (decide (c = '\\')) rest)
+
+def scanStr (inp : List Char) : Option (List Char × List Char) := scanStrAux false inp
 
 def takeDigits : List Char → List Char × List Char
   | [] => ([], [])
@@ -451,6 +451,42 @@ end
 def encodePretty (t : Esc) (canon : List Char → Option (List Char)) (lb : LB) (j : JS) : List Char :=
   prettyS t canon lb.chars 0 (normalize canon ((encS t canon j).length + 2) j)
 
+/-! ## structure → tokens (what the compact encoder writes, token by token) -/
+
+mutual
+def toksS : JS → List Tok
+  | .null => [.nul]
+  | .bool true => [.tru]
+  | .bool false => [.fls]
+  | .str s => [.str s]
+  | .num a => [.num a]
+  | .arr is => .lbrack :: (toksItems is ++ [.rbrack])
+  | .obj ms => .lbrace :: (toksMembers ms ++ [.rbrace])
+
+def toksItems : List JS → List Tok
+  | [] => []
+  | [x] => toksS x
+  | x :: xs => toksS x ++ .comma :: toksItems xs
+
+def toksMembers : List (List Char × JS) → List Tok
+  | [] => []
+  | [(k, v)] => .str k :: .colon :: toksS v
+  | (k, v) :: ms => .str k :: .colon :: toksS v ++ .comma :: toksMembers ms
+end
+
+def isScalar : JS → Bool
+  | .arr _ => false
+  | .obj _ => false
+  | _ => true
+
+/-- `ConvertToValue`: a nested array / object becomes its compact text -/
+def toValue (canon : List Char → Option (List Char)) : JS → JVal
+  | .null => .null
+  | .bool b => .bool b
+  | .str s => .str s
+  | .num a => .flt (numText canon a)
+  | j => .str (encS .backslash canon j)
+
 /-! ## tables -/
 
 structure Table where
@@ -495,21 +531,27 @@ def membersOf : JS → Option (List (List Char × JS))
 
 /-- `ConvertToTableValue` / the tail of `loadViewFromJsonLinesFile`: the header is the union of the
     keys in order of first appearance; a missing key is NULL -/
+def cellOpt (canon : List Char → Option (List Char)) : Option JS → DCell
+  | some v => cellOfJS canon v
+  | none => none
+
 def tableOf (canon : List Char → Option (List Char)) (objs : List (List (List Char × JS))) : DTable :=
   let header := objs.foldl addKeys []
-  ⟨header, objs.map fun ms => header.map fun k =>
-    match lookupKey k ms with
-    | some v => cellOfJS canon v
-    | none => none⟩
+  ⟨header, objs.map fun ms => header.map fun k => cellOpt canon (lookupKey k ms)⟩
 
-/-- the JSON loader (empty query): the text must be an array of objects -/
-def decodeJson (canon : List Char → Option (List Char)) (inp : List Char) : Except Err DTable :=
-  match decode canon inp with
+/-- the JSON loader (empty query) on tokens: the text must be an array of objects -/
+def decodeJsonToks (canon : List Char → Option (List Char)) (ts : List Tok) : Except Err DTable :=
+  match parseToks ts with
   | .ok (some (.arr is)) =>
     match is.mapM membersOf with
     | some objs => .ok (tableOf canon objs)
     | none => .error .parse
   | _ => .error .parse
+
+def decodeJson (canon : List Char → Option (List Char)) (inp : List Char) : Except Err DTable :=
+  match lex canon inp with
+  | .ok ts => decodeJsonToks canon ts
+  | .error e => .error e
 
 /-- `ReadString('\n')`: lines, each with its terminating LF -/
 def splitLines : List Char → List Char → List (List Char)
@@ -518,22 +560,40 @@ def splitLines : List Char → List Char → List (List Char)
     | _ => [acc.reverse]
   | acc, c :: cs => if c = '\n' then (c :: acc).reverse :: splitLines [] cs else splitLines (c :: acc) cs
 
-def decodeLines (canon : List Char → Option (List Char)) : List (List Char) → Except Err (List (List (List Char × JS)))
+/-- one object per line, blank lines (no token) skipped -/
+def objsOfLines : List (List Tok) → Except Err (List (List (List Char × JS)))
   | [] => .ok []
   | l :: ls =>
-    match decode canon l with
+    match parseToks l with
     | .error e => .error e
-    | .ok none => decodeLines canon ls
+    | .ok none => objsOfLines ls
     | .ok (some (.obj ms)) =>
-      match decodeLines canon ls with
+      match objsOfLines ls with
       | .ok os => .ok (ms :: os)
       | .error e => .error e
     | .ok (some _) => .error .parse
 
-/-- the JSON Lines loader: one object per line, blank lines skipped -/
-def decodeJsonl (canon : List Char → Option (List Char)) (inp : List Char) : Except Err DTable :=
-  match decodeLines canon (splitLines [] inp) with
+/-- the JSON Lines loader on the token lists of the lines -/
+def decodeJsonlToks (canon : List Char → Option (List Char)) (lines : List (List Tok)) : Except Err DTable :=
+  match objsOfLines lines with
   | .ok objs => .ok (tableOf canon objs)
+  | .error e => .error e
+
+def lexLines (canon : List Char → Option (List Char)) : List (List Char) → Except Err (List (List Tok))
+  | [] => .ok []
+  | l :: ls =>
+    match lex canon l with
+    | .error e => .error e
+    | .ok ts =>
+      match lexLines canon ls with
+      | .ok tss => .ok (ts :: tss)
+      | .error e => .error e
+
+/-- the JSON Lines loader: a line that does not lex or parse ends the load with an error (the lines
+    are read one after the other; an error in a later line is an error all the same) -/
+def decodeJsonl (canon : List Char → Option (List Char)) (inp : List Char) : Except Err DTable :=
+  match lexLines canon (splitLines [] inp) with
+  | .ok tss => decodeJsonlToks canon tss
   | .error e => .error e
 
 /-! ## what the property expects back -/
